@@ -26,7 +26,7 @@ R12.7 reset completeness: (i) no user setting lies inside the cleared region
       a setting, or is listed with the reason it cannot be observed.
 """
 import json, os
-from .. import sx, cfg as cfgm, guards, templates as T, ctl as ctlm, decide
+from .. import sx, cfg as cfgm, guards, templates as T, ctl as ctlm, decide, absint
 from ..facts import flatten
 from ..compdb import AnalysisBroken, VERIF
 
@@ -68,6 +68,7 @@ def setup(rep, tier):
     rep.minimum('R12.8', 1)
     rep.minimum('R12.9', 3)
     rep.minimum('R12.10', 10)
+    rep.minimum('R12.11', 2)
 
 
 # ------------------------------------------------------------------ helpers
@@ -1177,7 +1178,51 @@ def r12_10(rep, prog):
     return n
 
 
+# ------------------------------------------------------------------ R12.11
+def r12_11(rep, prog):
+    """custom-modes builds create modes at run time, with as few bands as the rate and frame size give (11 for 8 kHz / 64).
+    The band-edge array of such a mode has nbEBands+1 meaningful entries and comes from malloc.  A subscript into it that
+    is bounded by a LITERAL instead of by the mode's band count therefore reads heap residue for small modes, and the
+    packet then depends on process memory.  Decided by interval analysis with the mode's band counts set to those of the
+    smallest mode known to be creatable (11 bands): a subscript whose bound is finite and above that does not shrink with
+    the mode.  Literals at or below 11 are accepted, which says nothing about modes smaller still."""
+    if 'CUSTOM_MODES' not in prog.macros:
+        return 0
+    SAMPLE = 11      # band count of opus_custom_mode_create(8000, 64), the smallest mode the replay driver creates (a fact from the replay, not derived)
+    n = 0
+    for f in prog.functions_all:
+        if not f.file.startswith('celt/') or f.file.startswith('celt/x86') or f.file in ('celt/modes.c',):
+            continue
+        loads = [x for x in f.all_nodes() if sx.kind(x) == 'idx' and sx.kind(sx.strip(x[1])) == 'field' and sx.strip(x[1])[3] == 'eBands']
+        if not loads:
+            continue
+        an = absint.Analyzer(prog, f, field_summary={('OpusCustomMode', 'nbEBands'): absint.const(SAMPLE), ('OpusCustomMode', 'effEBands'): absint.const(SAMPLE)})
+        seen = set()
+        for b, i, x in an.cf.find(lambda x: sx.kind(x) == 'idx' and sx.kind(sx.strip(x[1])) == 'field' and sx.strip(x[1])[3] == 'eBands'):
+            st = an.state_before_node(b, i, x)
+            if st is None:
+                continue
+            v = an.ev(x[2], st)
+            if absint.is_top(v) or absint.hi(v) > 4096:
+                continue                     # bounded by run-time quantities (start/end/band counts): R01.6's business
+            txt = '%s:%s' % (sx.show(x), sx.line(x))
+            if txt in seen:
+                continue
+            seen.add(txt)
+            n += 1
+            rep.functions.add(f.name)
+            inst = '%s:%s subscript `%s` shrinks with the mode' % (prog.config, f.name, sx.show(x)[:36])
+            where = '%s:%s' % (f.file, sx.line(x))
+            if absint.hi(v) <= SAMPLE:
+                rep.holds('R12.11', inst, where, 'index in %s with the band counts of the mode set to %d' % (absint.show(v), SAMPLE))
+            else:
+                rep.violated('R12.11', inst, where, 'index in %s whatever the band count of the mode: for a mode with fewer bands (8 kHz / 64-sample frames: 11) the entry is beyond what compute_ebands() wrote, i.e. heap residue, and the packet depends on it' % absint.show(v),
+                             key='%s:literal-band-index' % f.name)
+    return n
+
+
 def check(rep, prog, tier):
+    r12_11(rep, prog)
     r12_10(rep, prog)
     r12_9(rep, prog)
     r12_8(rep, prog)
